@@ -827,7 +827,7 @@ def expand_fn(fs, assumed_override=False, notes=None):
     meta = dict(name=fs.key, file=fs.src, lines=[loc['line_start'], loc['line_end']], sha256=sha,
                 mode='assumed' if assumed else 'verified', props=fs.props, deltas=deltas,
                 contract=fs.origin, lost_anchors=lost, vname=('verif_word_' + _mangle(fs.word)) if fs.word is not None else (fs.rename or name),
-                owner=owner)
+                owner=(None if fs.word is not None else owner))
     return out, meta
 
 
